@@ -13,7 +13,7 @@
 //!       {"do":"Settle"}     iterate until nothing changes; the record is marked quiescent ("q":true)
 //!       {"do":"PollWoken"}  poll every worker whose waker fired (timers, stop messages)
 
-use actix_server::verif::{Act, LKind, Sim, SimCfg, Snap, SvcEvent};
+use actix_server::verif::{Act, AvailProbe, LKind, Sim, SimCfg, Snap, SvcEvent};
 use vcore::{arg, geti, gets, json, read_ndjson, Trace, Value};
 
 fn parse_act(s: &Value) -> Option<Act> {
@@ -391,6 +391,79 @@ fn main() {
                 json!({"runs": schedules.len(), "steps": steps, "anchors_missed": missed,
                        "mismatches": 0, "first_mismatches": []})
             );
+        }
+        // Availability: replay set_available sequences (TLC edge paths) on the real structure; after every
+        // operation report get_available over ALL 512 indices and available()
+        "avail" => {
+            let schedules = read_ndjson(&arg("--schedules").expect("--schedules"));
+            let mut trace = Trace::create(&arg("--trace").expect("--trace"));
+            let mut steps = 0usize;
+            let mut mismatches = vec![];
+            for (run, sch) in schedules.iter().enumerate() {
+                let mut a = AvailProbe::new();
+                trace.emit(&json!({"ev": "reset", "run": run}));
+                let mut bad = false;
+                for (k, op) in sch.as_array().unwrap().iter().enumerate() {
+                    let i = geti(op, "i") as usize;
+                    let b = op["b"].as_bool().unwrap();
+                    let r = vcore::catch(|| a.set(i, b));
+                    let after: Vec<usize> = (0..512).filter(|j| a.get(*j)).collect();
+                    let obs = json!({"ev": "set", "run": run, "i": i, "b": b, "after": after, "any": a.any(),
+                                     "panic": r.is_err()});
+                    trace.emit(&obs);
+                    steps += 1;
+                    let mut exp: Vec<usize> = op["after"].as_array().unwrap().iter().map(|x| x.as_u64().unwrap() as usize).collect();
+                    exp.sort();
+                    if !bad && (exp != after || op["any"] != obs["any"] || r.is_err()) {
+                        bad = true;
+                        mismatches.push(json!({"run": run, "step": k, "expected": op, "observed": obs}));
+                    }
+                }
+            }
+            trace.finish();
+            println!("{}", json!({"runs": schedules.len(), "steps": steps, "mismatches": mismatches.len(),
+                                  "first_mismatches": mismatches.iter().take(20).collect::<Vec<_>>()}));
+        }
+        // offset table (from TLC) against Availability::offset for all 512 indices, and the exhaustive pair check:
+        // from the empty and from the full structure, set(i) changes get(j) for j = i only
+        "avail-table" => {
+            let table = &read_ndjson(&arg("--table").expect("--table"))[0]["table"];
+            let mut bad = vec![];
+            for (i, e) in table.as_array().unwrap().iter().enumerate() {
+                let (w, b) = AvailProbe::offset(i);
+                if e[0].as_u64() != Some(w as u64) || e[1].as_u64() != Some(b as u64) {
+                    bad.push(json!({"kind": "offset", "i": i, "spec": e, "impl": [w, b]}));
+                }
+            }
+            let mut pairs = 0u64;
+            for i in 0..512usize {
+                let mut e = AvailProbe::new();
+                e.set(i, true);
+                let mut f = AvailProbe::new();
+                for j in 0..512 {
+                    f.set(j, true);
+                }
+                f.set(i, false);
+                for j in 0..512usize {
+                    pairs += 2;
+                    if e.get(j) != (i == j) {
+                        bad.push(json!({"kind": "set-from-empty", "i": i, "j": j, "get": e.get(j)}));
+                    }
+                    if f.get(j) != (i != j) {
+                        bad.push(json!({"kind": "clear-from-full", "i": i, "j": j, "get": f.get(j)}));
+                    }
+                }
+                if !e.any() {
+                    bad.push(json!({"kind": "any", "i": i}));
+                }
+                e.set(i, false);
+                if e.any() {
+                    bad.push(json!({"kind": "any-after-clear", "i": i}));
+                }
+            }
+            let overflow_panics = vcore::catch(|| AvailProbe::offset(512)).is_err();
+            println!("{}", json!({"indices": 512, "pairs": pairs, "mismatches": bad.len(), "overflow_panics": overflow_panics,
+                                  "first_mismatches": bad.iter().take(10).collect::<Vec<_>>()}));
         }
         other => panic!("unknown mode {other}"),
     }
